@@ -635,14 +635,25 @@ def run_case(case, acc):
     with vk:
         with warnings.catch_warnings(record=True) as wl:
             _record_all()
+            # a kernel with 16 KiB / 64 KiB pages (arm64, ppc64): the zone watermarks are counted in *its* pages
+            vm_pagesize = {"0": 16384, "1": 65536}.get(harness.chash(case)[-6], pagesize)
+            import psutil._pslinux as _pl
+            _old_ps = _pl.PAGESIZE
+            _pl.PAGESIZE = vm_pagesize
+            if vm_pagesize != pagesize:
+                acc.count("cases_on_a_kernel_with_large_pages")
             try:
                 got = ps.virtual_memory()
             except Exception as e:  # noqa: BLE001
                 got = None
                 viols.append((f"vm_exception:{type(e).__name__}", f"virtual_memory() raised {e!r}: mem={case['mem']} "
                               f"zones={case['zones']}"))
+            finally:
+                _pl.PAGESIZE = _old_ps
         if got is not None:
-            v, b = check_vm(case, got, wl, pagesize, acc)
+            v, b = check_vm(case, got, wl, vm_pagesize, acc)
+            if vm_pagesize != pagesize:
+                v = [(m + ":large_pages", d + f" [page size {vm_pagesize}]") for m, d in v]
             viols += v
             branches |= b
         if reads is not None:
